@@ -393,7 +393,9 @@ PROPS = {
                  "for seeded and TLC-generated cones (centre on every face class of small depths incl. seams and poles; radii at both sides of "
                  "each of the 29 starting-depth thresholds, 1e-9, pi/2 +- eps, 130 deg, pi - eps, log-uniform; delta_depth 0..3) the bridge "
                  "computes witness cells that provably contain a point of the cone and TLC checks that each is covered by the BMOC, possibly "
-                 "through an ancestor (digit-path prefix).",
+                 "through an ancestor (digit-path prefix). Witnesses come from 11 rings of >= 240 points and from every cell vertex inside the cone (points "
+                 "of the cone in each cell sharing the vertex: corner touches); one recorded query in three is preceded by unrecorded queries on related "
+                 "arguments (same radius elsewhere in the region, same centre at another depth: the answer must not depend on earlier calls).",
         "rule": "events = one cone query with its BMOC, witness cells (<= 120 distinct), worst excess of full cells, worst slack; non-trivial = all "
                 "distinct events",
         "assumptions": ["TLC / SANY and the CommunityModules Json/IOUtils are correct",
